@@ -1,6 +1,6 @@
 CONSTANTS
   Defects = {"etag_off_ignored"}
-  Family = "cache"
+  Family = "cache_small"
   Deep = FALSE
 INIT Init
 NEXT Next
